@@ -66,6 +66,26 @@ def ens_split(I, env, res):
     return z3.BoolVal(isinstance(res, STuple) and len(res.items) == 2)
 
 
+def ens_split_commas(I, env, res):
+    """the pieces of value.split(','), without one trailing empty piece"""
+    return z3.BoolVal(isinstance(res, (ZVal, SList)))
+
+
+def ens_split_words(I, env, res):
+    return z3.BoolVal(isinstance(res, (ZVal, SList)))
+
+
+def more_targets():
+    seqstr = TSeq(TStr(), mutable=True)
+    return [
+        Target("robust.split_commas", "mypy.config_parser:split_commas", lambda I: {"args": [I.make(TStr(), "value")]}, ensures=[("returns-a-list", ens_split_commas)], raises=(),
+               note="config values are input text; items[-1] / pop(-1) are guarded by `if items`"),
+        Target("robust.split_words", "mypy.util:split_words", lambda I: {"args": [I.make(TStr(), "msg")]}, ensures=[("returns-a-list", ens_split_words)], raises=(),
+               loops={"for c in msg": LoopSpec(inv=lambda I, env: z3.BoolVal(True), havoc_types={"next_word": TStr(), "res": seqstr, "allow_break": TBool()})},
+               note="message wrapping for --pretty: any text"),
+    ]
+
+
 def targets(tier):
     seqstr = TSeq(TStr())
     loops = {
@@ -78,4 +98,4 @@ def targets(tier):
                note="parse_type_comment enters through its exception contract (SyntaxError | ValueError incl. UnicodeEncodeError)"),
         Target("robust.split_directive", "mypy.config_parser:split_directive", setup_split, ensures=[("returns-parts-and-errors", ens_split)], raises=(),
                loops=loops, note="inline `# mypy:` comments are input text; index safety of both scanning loops"),
-    ]
+    ] + more_targets()
